@@ -182,6 +182,11 @@ class Ctx:
         self.covered = set()
         self.imprecise = []       # over-approximations made on this path (a refutation may then be spurious)
 
+    def note_bounded(self, what):
+        self.bounded = getattr(self, "bounded", [])
+        if what not in self.bounded:
+            self.bounded.append(what)
+
     def note_imprecise(self, what):
         if what not in self.imprecise:
             self.imprecise.append(what)
@@ -304,6 +309,9 @@ class Ctx:
         if self.imprecise:
             meta = dict(meta or {})
             meta["imprecise"] = list(self.imprecise)
+        if getattr(self, "bounded", None):
+            meta = dict(meta or {})
+            meta["bounded"] = list(self.bounded)
         vc = VC(name, list(self.pc), z, meta)
         self.vcs.append(vc)
         if getattr(self, "eager", False):
